@@ -393,3 +393,38 @@ def api_defaults(ctx):
     from .common_defaults import defaults as run
     n = run(ctx, [('mnemonic:Mnemonic.to_mnemonic', 'add_checksum', 'True'), ('mnemonic:Mnemonic.generate', 'add_checksum', 'True'), ('mnemonic:Mnemonic.to_entropy', 'includes_checksum', 'True'), ('mnemonic:Mnemonic.to_seed', 'validate', 'True')], 'sentences are produced without / accepted without a valid checksum by default')
     ctx.floor(n, 3, 'parameter defaults')
+
+
+@PROP.obligation('C14.language-all-words', canaries=[
+    mut.replace_stmt('mnemonic', 'Mnemonic.detect_language', 'wlcount = {}', 'words = words[:4]\nwlcount = {}', 'language detected from the first four words only'),
+])
+def language_all_words(ctx):
+    """Mnemonic.detect_language counts, per word list, ALL words of the sentence: the words that are counted reach the counting loop from
+    the normalised sentence through split only - no slice, sample or early exit. The official lists overlap (English/French share 100
+    words, the two Chinese lists 1275 characters), so a sentence whose first words are shared would otherwise be checked against the
+    wrong list and a genuine BIP39 sentence rejected."""
+    from ..dfa import ReachingDefs
+    q = 'mnemonic:Mnemonic.detect_language'
+    fn = ctx.repo.func(q)
+    rd = ReachingDefs(fn)
+    loops = [n for n in ast.walk(fn) if isinstance(n, ast.For) and any(isinstance(x, ast.AugAssign) and 'wlcount' in norm(x.target) for x in ast.walk(n)) and not any(isinstance(x, ast.For) and x is not n for x in ast.walk(n))]
+    if len(loops) != 1:
+        ctx.undecided('detect_language: counting loop not found')
+    lp = loops[0]
+    if not isinstance(lp.iter, ast.Name):
+        ctx.unsure('%s: counting loop iterates over `%s`' % (q, norm(lp.iter)))
+        return
+    nid = rd.node_of_ast(lp.iter)
+    if nid is None:
+        ctx.undecided('detect_language: counting loop has no CFG node')
+    defs = rd.reaching(nid, lp.iter.id)
+    srcs = [norm(d.value) if d.value is not None else d.kind for d in defs]
+    ctx.saw('counted words reach the loop from %s' % srcs)
+    for d in defs:
+        if d.value is None:
+            continue
+        bad = [x for x in ast.walk(d.value) if isinstance(x, ast.Subscript) and isinstance(x.slice, ast.Slice)] + \
+              [x for x in ast.walk(d.value) if isinstance(x, ast.Call) and norm(x.func).split('.')[-1] in ('sample', 'choice', 'choices', 'islice')]
+        if bad:
+            ctx.violate(q, 'only part of the sentence is counted: `%s = %s`' % (lp.iter.id, norm(d.value)), d.ast, 'a valid sentence whose first words also occur in another list is rejected with Unrecognised word')
+    ctx.require(not any(isinstance(x, (ast.Break, ast.Return)) for x in ast.walk(lp)), q, 'the counting loop can stop before the last word', lp)
